@@ -757,7 +757,7 @@ def c05n(F, R):
                         variant_ok = True
                 else:
                     conds.append(c)
-            if par.get("k") == "Match" and not par.get("src"):
+            if par.get("k") == "Match" and par.get("src") in (None, "Normal"):
                 for arm in par["arms"]:
                     if any(y is x for y in walk(arm["body"], pats=False)) or arm["body"] is x:
                         if any((y.get("res") or "").endswith("::" + AVO) for y in walk(arm["pat"])):
